@@ -206,9 +206,10 @@ fn c05_constant_time_eq_spec() {
 
 // ---- SRTCP, HMAC profiles: Err => crypto state unchanged; Ok => tag is the MAC of ALL preceding bytes
 fn srtcp_hmac_obligation<const N: usize>(profile: SrtpProfile, ak: [u8; 20]) {
-    let mut c = ctx_hmac(profile, &ak, &ak);
+    let mut c = ctx_cm(profile, &ak, [0x11; 16]);
     kani::assume(well_formed(&c));
-    let tag_len = profile.tag_len();
+    // RFC 3711 / RFC 5764 4.1.2: the SRTCP tag is 80 bits under EVERY HMAC-SHA1 profile (also _32)
+    let tag_len = 10;
     let old = crypto_state(&c);
     let raw: [u8; N] = kani::any();
     let mut p = raw.to_vec();
@@ -234,6 +235,16 @@ fn srtcp_hmac_obligation<const N: usize>(profile: SrtpProfile, ak: [u8; 20]) {
 #[kani::unwind(30)]
 fn c05_unprotect_rtcp_hmac80_22_fixedkey() {
     srtcp_hmac_obligation::<22>(SrtpProfile::NullCipherHmac, [0x5a; 20]);
+}
+#[kani::proof]
+#[kani::unwind(30)]
+fn c05_unprotect_rtcp_sha32_22_fixedkey() {
+    srtcp_hmac_obligation::<22>(SrtpProfile::Aes128Sha1_32, [0x5a; 20]);
+}
+#[kani::proof]
+#[kani::unwind(30)]
+fn c05_unprotect_rtcp_sha80_22_fixedkey() {
+    srtcp_hmac_obligation::<22>(SrtpProfile::Aes128Sha1_80, [0x5a; 20]);
 }
 #[kani::proof]
 #[kani::unwind(30)]
